@@ -113,7 +113,7 @@ CaretLines(I, res, text) ==
     LET located == res.hl /\ (res.line = IMM \/ res.line \in DOMAIN I.prog)
         toks == IF located THEN TokensOf(I, res.line) ELSE <<>>
     IN  IF toks # <<>>
-        THEN LET sp == TokensSpelling(toks)
+        THEN LET sp == TokensSpellingPlain(toks)
                  n == IF res.tok < Len(toks) THEN res.tok ELSE Len(toks)
              IN  [ok |-> sp.ok, lines |-> <<sp.s, Repeat(SP, SpacesBefore(toks, n)) \o <<94>>>>]
         ELSE IF Len(res.kind) > 20 /\ SubSeq(res.kind, 1, 20) = "syntax_tokenization_"
